@@ -10,6 +10,7 @@ ASSUMPTIONS = ['checked build (overflow-checks and debug-assertions on), as the 
 
 def bounds(tier):
     return {'tokenizer': 'every string of 1..2 (thorough: 3) characters over a 38-character alphabet (operators, brackets, whitespace, digits, quote, comment sign) plus 14 Unicode operator characters in every position of 2- (thorough: 3-) character strings',
+            'date-time kernel': 'the AddToDateTime / SubFromDateTime opcodes on the instant 2000-01-01T00:00Z with a symbolic duration in seconds (all doubles): range checks and conversion to a jiff span decided; the calendar arithmetic inside jiff is mostly undecided (divisions by 86400 on symbolic 64-bit values) and not claimed',
             'factorial': 'x in {0,1,3,5}; order (number of "!") symbolic over 1..2^20 (inputs of up to 1 MiB of "!")',
             'exponent / dtype kernels': 'two symbolic integer exponents g*2^74 with |g| <= 2^52 (up to 2^126, exactly expressible as numeric literals); %d paths per operation (bounded exploration)' % (30 if tier == 'quick' else 400),
             'instruction_budget_per_path': 20_000_000}
@@ -23,6 +24,10 @@ def _inputs(rnd, case):
 
 from . import common
 
+def _dt_inputs(rnd, case):
+    import struct as st
+    return {'f0': st.unpack('<Q', st.pack('<d', rnd.choice([0.0, 1.5, -86400.25, 1e9, 1e100, float('nan'), 3600.0])))[0]}
+
 def plan(tier, rnd, units):
     npaths = 30 if tier == 'quick' else 400
     fact = [{'id': 'x%s' % x, 'label': '%s followed by a symbolic number of "!"' % x, 'cfg': {0: x, 1: '1'}} for x in ('0', '1', '3', '5')]
@@ -32,6 +37,9 @@ def plan(tier, rnd, units):
         common.tokenizer_job(tier),
         {'entry': 'h_c08_factorial', 'cases': fact, 'opts': {'mode': 'replay', 'max_paths': 2000, 'instr_budget': 20_000_000, 'query_timeout_ms': 10000},
          'panic_is_violation': True, 'bound_is_violation': True, 'confirm_entry': 'h_c08_factorial_text', 'expect_covers': ['c08-factorial-evaluated'], 'selftest_inputs': _inputs},
+        {'entry': 'h_c19_add', 'cases': [{'id': 'dt-add', 'label': 'date-time + symbolic duration', 'cfg': {0: '946684800', 1: 'add'}}, {'id': 'dt-sub', 'label': 'date-time - symbolic duration', 'cfg': {0: '946684800', 1: 'sub'}}],
+         'opts': {'mode': 'fork', 'max_paths': 60, 'instr_budget': 50_000_000, 'query_timeout_ms': 3000}, 'bounded_exploration': True,
+         'panic_is_violation': True, 'confirm_entry': 'h_c19_add_text', 'expect_covers': ['c19-evaluated', 'c19-out-of-range-error'], 'selftest_inputs': _dt_inputs},
         {'entry': 'h_c08_exponent', 'cases': [{'id': 'exp-' + o, 'label': o, 'cfg': {0: o}} for o in ops],
          'opts': {'mode': 'replay', 'max_paths': npaths, 'instr_budget': 20_000_000, 'query_timeout_ms': 3000}, 'bounded_exploration': True,
          'panic_is_violation': True, 'confirm_entry': 'h_c08_exponent_text', 'expect_covers': ['c08-exponent-start'], 'selftest_inputs': _inputs},
